@@ -66,7 +66,9 @@ pub fn exec_op(op: &str) -> String {
 
 fn main() {
     // panics are reported through exec_op; keep stderr quiet
-    std::panic::set_hook(Box::new(|_| {}));
+    if std::env::var("HARNESS_LOUD").is_err() {
+        std::panic::set_hook(Box::new(|_| {}));
+    }
     let args: Vec<String> = std::env::args().collect();
     if args.len() < 2 {
         eprintln!("usage: harness <suite> [--tier quick|thorough] [--seed N] [--out DIR] [suite args]");
@@ -130,6 +132,7 @@ fn main() {
             }
         }
         "corner3" => suites::signal::corner3(ctx.seed),
+        "preamblesweep" => suites::signal::preamble_sweep(ctx.seed),
         "corner2" => {
             // finer map of the marginal region found by `corner`
             let mut rng = util::Rng::new(ctx.seed);
